@@ -11,9 +11,12 @@ use std::collections::BTreeSet;
 const HIT: &str = "HIT";
 const MISS: &str = "MIS";
 
-/// 0 absent, 1 empty, 2 {hit}, 3 {miss}, 4 {hit, miss}, 5 [hit, hit] (duplicate entries)
+/// 0 absent, 1 empty, 2 {hit}, 3 {miss}, 4 {hit, miss}, 5 [hit, hit] (duplicate entries),
+/// 6 [hit, over-long, over-long] (entries longer than an id can be, repeated), 7 [over-long]
 fn id_set(opt: usize) -> Option<Vec<String>> {
     match opt {
+        6 => Some(vec![HIT.into(), "APPLICATION".into(), "APPLICATION".into()]),
+        7 => Some(vec!["TOOLONGID".into()]),
         0 => None,
         1 => Some(vec![]),
         2 => Some(vec![HIT.into()]),
@@ -164,6 +167,7 @@ fn msg_types() -> Vec<Option<(u8, u8)>> {
 }
 
 pub fn run(ctx: &Ctx) {
+    ctx.enable_trace_pass(ctx.tier.pick(20000u64, 200000u64));
     ctx.set_rule("case = (filter configuration, conversion used, message shape); three complete products: (all 257 minimum levels x all message types x id hit/miss), (all id-set shapes x all count relations x ids x ECU presence x extended-header presence), and a reduced full product; oracle = the statement transcribed as a predicate; non-trivial = the statement says the message is dropped");
     let types = msg_types();
     // product 1: levels
@@ -188,10 +192,10 @@ pub fn run(ctx: &Ctx) {
     // product 2: sets and counts
     {
         let t2: Vec<Option<(u8, u8)>> = vec![None, Some((MSTP_LOG, 3)), Some((MSTP_CONTROL, 2))];
-        let sp = Space::new(&[6, 6, 6, 6, 6, 2, 2, 3, t2.len(), 2]);
+        let sp = Space::new(&[8, 8, 8, 6, 6, 2, 2, 3, t2.len(), 2]);
         let s2 = sp.clone();
         let t2 = &t2;
-        ctx.run_family(Family::new("c09.sets_counts", sp.size(), "app / context / ECU id sets each in {absent, empty, {hit}, {miss}, {hit,miss}, [hit,hit]} x app and context counts each in {-1, 0, |set|-1, |set|, |set|+1, i64::MAX} x message app id hit/other x context id hit/other x header ECU {absent, hit, other} x {no extended header, log warn, control} x both conversions", move |i, loc| {
+        ctx.run_family(Family::new("c09.sets_counts", sp.size(), "app / context / ECU id sets each in {absent, empty, {hit}, {miss}, {hit,miss}, [hit,hit], [hit,over-long,over-long], [over-long]} x app and context counts each in {-1, 0, |set|-1, |set|, |set|+1, i64::MAX} x message app id hit/other x context id hit/other x header ECU {absent, hit, other} x {no extended header, log warn, control} x both conversions", move |i, loc| {
             let c = s2.coords(i);
             let app_ids = id_set(c[0]);
             let context_ids = id_set(c[1]);
@@ -220,6 +224,50 @@ pub fn run(ctx: &Ctx) {
             };
             let s = MsgShape { ext: types[c[6]], app_hit: c[7] == 1, ctx_hit: c[8] == 1, ecu: c[9], verbose: c[6] % 2 == 0 };
             judge(&cfg, i % 2 == 1, &s, loc);
+        }));
+    }
+    // product 3b: storage-header mode, blank-but-present header ECU id
+    {
+        // header ECU: 0 absent, 1 present but blank (four NULs), 2 HIT, 3 OTH; storage ECU: HIT / OTH
+        // ECU id set: absent, {HIT}, {OTH}, {""}, {HIT, ""}
+        let ecu_sets: Vec<Option<Vec<String>>> = vec![None, Some(vec![HIT.into()]), Some(vec!["OTH".into()]), Some(vec!["".into()]), Some(vec![HIT.into(), "".into()])];
+        let t3: Vec<Option<(u8, u8)>> = vec![None, Some((MSTP_LOG, 2)), Some((MSTP_CONTROL, 1))];
+        let sp = Space::new(&[4, 2, ecu_sets.len(), t3.len(), 3, 2]);
+        let s2 = sp.clone();
+        let (ecu_sets, t3) = (&ecu_sets, &t3);
+        ctx.run_family(Family::new("c09.storage_blank_ecu", sp.size(), "messages WITH storage header (storage ECU id HIT / OTH) x header ECU id {absent, present but blank, HIT, OTH} x ECU id set {absent, {HIT}, {OTH}, {''}, {HIT,''}} x {no extended header, log, control} x app id set {absent, {HIT}, {miss}} x both conversions: dropped exactly as the statement says (the storage header's ECU id plays no role), kept messages identical to the unfiltered parse", move |i, loc| {
+            let c = s2.coords(i);
+            let header_ecu: Option<&str> = [None, Some(""), Some(HIT), Some("OTH")][c[0]];
+            let st_ecu = if c[1] == 0 { HIT } else { "OTH" };
+            let cfg = DltFilterConfig { min_log_level: None, app_ids: [None, Some(vec![HIT.to_string()]), Some(vec![MISS.to_string()])][c[4]].clone(), context_ids: None, ecu_ids: ecu_sets[c[2]].clone(), app_id_count: 0, context_id_count: 0 };
+            let processed: ProcessedDltFilterConfig = if c[5] == 1 { ProcessedDltFilterConfig::from(&cfg) } else { ProcessedDltFilterConfig::from(cfg.clone()) };
+            let e = t3[c[3]].map(|(t, s)| ext(t, s, HIT, HIT));
+            let p = payload_for(false, e.as_ref().map(|e| e.mstp), 0);
+            let mut m = msg_with(if header_ecu.is_some() { 0x04 } else { 0 } | 0x10, 1, e, p, Some(storage(5, 6, st_ecu)));
+            m.ecu = header_ecu.map(|s| s.to_string());
+            let bytes = encode(&m).0;
+            let in_set = |set: &Option<Vec<String>>, id: &str| set.as_ref().map(|v| v.iter().any(|x| x == id));
+            let expect_drop = match t3[c[3]] {
+                Some(_) => in_set(&cfg.app_ids, HIT) == Some(false) || header_ecu.map(|h| in_set(&cfg.ecu_ids, h) == Some(false)).unwrap_or(false),
+                None => cfg.app_ids.is_some() && cfg.app_id_count > distinct_len(&cfg.app_ids),
+            };
+            loc.evals += 1;
+            loc.traces += 1;
+            loc.transitions += 2;
+            loc.state(i, expect_drop);
+            let desc = format!("storage ECU {:?}, header ECU {:?}, ecu_ids {:?}, app_ids {:?}, type {:?}; message {}", st_ecu, header_ecu, cfg.ecu_ids, cfg.app_ids, t3[c[3]], hex(&bytes));
+            let plain = match catch(|| dlt_message(&bytes, None, true)) {
+                Ok(Ok((_, ParsedMessage::Item(pm)))) => pm,
+                other => panic!("C09 harness: unfiltered parse failed: {:?}", other.map(|r| r.map(|_| ()))),
+            };
+            match catch(|| dlt_message(&bytes, Some(&processed), true).map(|(rest, pm)| (rest.len(), pm))) {
+                Ok(Ok((0, ParsedMessage::FilteredOut(n)))) if expect_drop && n == m.payload_len as usize => loc.outcome("dropped as stated"),
+                Ok(Ok((0, ParsedMessage::Item(k)))) if !expect_drop && same_message(&k, &plain) => loc.outcome("kept as stated"),
+                other => {
+                    loc.outcome("wrong under storage header");
+                    loc.violation("filter result wrong for a stored message", format!("{}: expected {}, got {:?}", desc, if expect_drop { "FilteredOut".to_string() } else { format!("the unfiltered message {}", fp(&plain)) }, other.map(|r| r.map(|(n, pm)| (n, match pm { ParsedMessage::Item(k) => fp(&k), o => format!("{:?}", o) })))), json!({"case": desc}));
+                }
+            }
         }));
     }
     // product 4: near-miss ids -- the set holds exactly one id, the message carries a similar one
